@@ -10,8 +10,9 @@ use loom::sync::atomic::{AtomicUsize, Ordering::Relaxed};
 use std::sync::{LockResult, TryLockResult};
 
 pub mod sync {
-    pub use super::Mutex;
-    pub use loom::sync::MutexGuard;
+    pub use super::{Mutex, RwLock};
+    pub use loom::sync::atomic;
+    pub use loom::sync::{Arc, Condvar, MutexGuard, RwLockReadGuard, RwLockWriteGuard};
 }
 
 pub use loom::thread;
@@ -53,6 +54,56 @@ impl<T> Mutex<T> {
             self.point.fetch_add(1, Relaxed);
         }
         guard
+    }
+
+    pub fn get_mut(&mut self) -> LockResult<&mut T> {
+        self.inner.get_mut()
+    }
+}
+
+/// loom's `RwLock` with the same extra scheduling point inside the critical section
+#[derive(Debug)]
+pub struct RwLock<T> {
+    inner: loom::sync::RwLock<T>,
+    point: AtomicUsize,
+}
+
+impl<T> RwLock<T> {
+    pub fn new(data: T) -> RwLock<T> {
+        RwLock {
+            inner: loom::sync::RwLock::new(data),
+            point: AtomicUsize::new(0),
+        }
+    }
+
+    pub fn into_inner(self) -> LockResult<T> {
+        self.inner.into_inner()
+    }
+
+    #[track_caller]
+    pub fn read(&self) -> LockResult<loom::sync::RwLockReadGuard<'_, T>> {
+        let guard = self.inner.read();
+        LOCKS.fetch_add(1, std::sync::atomic::Ordering::Relaxed);
+        self.point.load(Relaxed);
+        guard
+    }
+
+    #[track_caller]
+    pub fn write(&self) -> LockResult<loom::sync::RwLockWriteGuard<'_, T>> {
+        let guard = self.inner.write();
+        LOCKS.fetch_add(1, std::sync::atomic::Ordering::Relaxed);
+        self.point.fetch_add(1, Relaxed);
+        guard
+    }
+
+    #[track_caller]
+    pub fn try_read(&self) -> TryLockResult<loom::sync::RwLockReadGuard<'_, T>> {
+        self.inner.try_read()
+    }
+
+    #[track_caller]
+    pub fn try_write(&self) -> TryLockResult<loom::sync::RwLockWriteGuard<'_, T>> {
+        self.inner.try_write()
     }
 
     pub fn get_mut(&mut self) -> LockResult<&mut T> {
